@@ -323,6 +323,10 @@ def finish(prop, tier, t0, results, level_rule, assumptions, extra=None, replays
                 f.write(text + "\n")
         lines.append("VIOLATION property=%s replay=%s" % (prop, rp))
         lines.append("  # %s" % text[:700])
+    if any(j.build.startswith("x") for (j, _rc, _out, _res) in results):
+        level_rule = level_rule + ("; plus cross-property core jobs (builds prefixed 'x', checks/cross.py): the core scenarios of the components this "
+                                   "property's guarantee is built on - grace periods / reader registration / signals / fork handlers / call_rcu / "
+                                   "defer_rcu - re-run on the real code with their own oracles")
     cov = dict(
         states=tot["states"], transitions=tot["transitions"],
         traces_validated_against_impl=tot["executions"],
